@@ -73,6 +73,7 @@ fn reactor_mode_prepare(m: u8)
     drop(c);
     if persistent { assert!(despawner.try_recv().is_none(), "C07: a persistent reactor is never sent to the collector"); }
     else { assert!(despawner.try_recv() == Some(*sys) && despawner.try_recv().is_none(), "C07: collected exactly once after the last handle is dropped"); }
+    kani::cover!(true, "end of harness reached");
 }
 #[kani::proof]
 #[kani::stub(core::any::TypeId::of, crate::vh::stub_typeid_of)]
